@@ -20,3 +20,4 @@ Definition ias15F23 (eps ts2 dt_done min_dt : float) : list float :=
 Definition bsF_opt (sc4 fac0 power dt : float) : list float := [PrimFloat.abs (PrimFloat.mul dt (bs_fac_core FNum sc4 fac0 power))].
 Definition bsF_dec (d : Z) (error ratio2 : float) (tg pr fl : bool) : list float :=
   let r := bs_decide FNum d error ratio2 tg pr fl in [b2f (fst r); b2f (snd r)].
+Definition bsF_clamp (min_dt max_dt dtabs : float) (forward : bool) : list float := [bs_clamp FNum min_dt max_dt dtabs forward].
